@@ -475,6 +475,24 @@ def main():
             kres.setdefault('counterexamples', {})['RFC 9180 Appendix A.1.1 known answers (native run of the real code)'] = \
                 'FAILS natively (the published RFC 9180 A.1.1 vector is the failing input):\n' + kat['output']
 
+    # ---- SEC 2 base-point known answers for the NIST curves, run natively (C12 only): BOUNDED stand-in (one input per curve)
+    # for the bodies of the NIST write_exact / dh functions, which are trusted one-line delegations in the Verus run.
+    # Never counted as proved; a native failure is a concrete failing input (the published generator of the curve).
+    nist_kat = None
+    if pid == 'C12' and not os.environ.get('VERIF_SKIP_KANI'):
+        import kat_run
+        nm = 'NIST write_exact/from_bytes/dh on the SEC 2 generator of P-256, P-384, P-521 (native run of the real code)'
+        try:
+            nist_kat = kat_run.run_nist()
+        except Exception as e:
+            nist_kat = {'ok': False, 'failed_natively': False, 'compiled': False, 'output': repr(e)}
+        st = 'discharged' if nist_kat.get('ok') else ('FAILED' if nist_kat.get('failed_natively') else 'UNDECIDED')
+        obligations.append({'name': nm, 'backend': 'native known-answer run (BOUNDED: 1 input per curve - sk = 1, pk = G)', 'status': st,
+                            'detail': nist_kat.get('output'), 'time_s': nist_kat.get('time_s'), 'bounded': True})
+        if st == 'FAILED':
+            kres.setdefault('counterexamples', {})[nm] = \
+                'FAILS natively (failing input: private key 1 / the published base point of the curve, kat/nist_kat.rs):\n' + nist_kat['output']
+
     # ---- vacuity guards
     vac = []
     if tier == 'thorough' and verus_undecided is None:
@@ -553,7 +571,7 @@ def main():
 
     wall = time.time() - t0
     discharged = [o for o in obligations if o['status'] == 'discharged']
-    counted = [o for o in obligations if o['status'] in ('discharged', 'FAILED') and not o.get('bounded') and o['backend'] != 'native known-answer run']
+    counted = [o for o in obligations if o['status'] in ('discharged', 'FAILED') and not o.get('bounded') and not o['backend'].startswith('native known-answer run')]
     assumed = [o for o in obligations if o['status'] == 'assumed']
     bounded = [o for o in obligations if o.get('bounded')]
     ev = {
@@ -566,7 +584,7 @@ def main():
             'functions_under_contract': sorted(set('%s::%s%s' % (fn['rel'], fn['fname'], ' [assumed in Verus, discharged by %s]' % fn['discharged_by'] if fn['external'] else '') for fn in fn_set)),
             'samples': [o['name'] for o in obligations[:12]],
             'verus_status': verus_undecided or 'ok',
-            'assumption_validation': ({'rfc9180_A_1_1_known_answers_native': kat} if kat else None),
+            'assumption_validation': ({'rfc9180_A_1_1_known_answers_native': kat} if kat else ({'sec2_base_point_known_answers_native': nist_kat} if nist_kat else None)),
             'backends': {'verus': {'obligations': n_verus, 'whole_crate_verified_fns': vz['verified'], 'whole_crate_errors': vz['errors'],
                                    'smt_ms': vz.get('smt_ms'), 'wall_s': vz.get('wall_s'), 'cached_shared_run': res.get('cached', False)},
                          'kani': {'harnesses': [{k: h.get(k) for k in ('name', 'ok', 'time_s', 'bound', 'complete')} for h in kres.get('harnesses', [])]},
